@@ -176,6 +176,10 @@ class SpecDecodeError(Exception):
     pass
 
 
+class SpecGroup(SpecDecodeError):
+    """a (proto2) group marker: the spec neither requires rejection nor acceptance"""
+
+
 def read_varint(buf, pos):
     """(value, newpos) -- at most 10 bytes, value taken modulo 2**64"""
     val = 0
@@ -219,8 +223,10 @@ def split_fields(buf):
             if pos + 4 > len(buf):
                 raise SpecDecodeError("truncated fixed32")
             val, pos = buf[pos : pos + 4], pos + 4
+        elif wt == 3 or wt == 4:
+            raise SpecGroup("group marker")
         else:
-            raise SpecDecodeError("wire type %s" % (wt if isinstance(wt, int) else "?"))
+            raise SpecDecodeError("invalid wire type")
         if number == 0:
             raise SpecDecodeError("field number 0")
         out.append((number, wtc, val, buf[start:pos]))
@@ -239,11 +245,16 @@ def le_int(b, signed=False):
     return v
 
 
+WIDE32 = []  # set when a uint32 / sint32 field receives a varint above 32 bits (outside the claim)
+
+
 def decode_scalar(kind, wt, val):
     """typed value of a payload received with wire type wt for declared kind"""
     if kind in VARINT_KINDS:
         if wt != 0:
             raise SpecDecodeError("wire type mismatch")
+        if kind in ("uint32", "sint32") and val > 0xFFFFFFFF:
+            WIDE32.append(kind)
         if kind == "int32" or kind == "enum":
             v = val & 0xFFFFFFFF
             return (v ^ (1 << 31)) - (1 << 31)
